@@ -6,6 +6,20 @@ use rdest_verif_harness::util::*;
 use serde_json::{json, Value};
 use std::io::{BufRead, Write};
 
+/// Encode a sequence of values the way a user of BEncoder would.
+fn encode_all(vals: &[rdest::BValue]) -> Vec<u8> {
+    let mut e = rdest::verif::BEncoder::new();
+    for v in vals.iter() {
+        match v {
+            rdest::BValue::Int(i) => e.add_int(*i),
+            rdest::BValue::ByteStr(b) => e.add_byte_str(b),
+            rdest::BValue::List(l) => e.add_list(l),
+            rdest::BValue::Dict(d) => e.add_dict(d),
+        };
+    }
+    e.encode().clone()
+}
+
 fn run_case(case: &Value) -> Value {
     let op = case["op"].as_str().unwrap_or("");
     match op {
@@ -20,18 +34,7 @@ fn run_case(case: &Value) -> Value {
         "bencode" => {
             // encode a list of values the way a user of BEncoder would, then decode it again
             let vals: Vec<rdest::BValue> = case["values"].as_array().unwrap().iter().map(json_to_bvalue).collect();
-            let enc = guarded(|| {
-                let mut e = rdest::verif::BEncoder::new();
-                for v in vals.iter() {
-                    match v {
-                        rdest::BValue::Int(i) => e.add_int(*i),
-                        rdest::BValue::ByteStr(b) => e.add_byte_str(b),
-                        rdest::BValue::List(l) => e.add_list(l),
-                        rdest::BValue::Dict(d) => e.add_dict(d),
-                    };
-                }
-                e.encode().clone()
-            });
+            let enc = guarded(|| encode_all(&vals));
             match enc {
                 Ok(bytes) => {
                     let dec = match guarded(|| rdest::BDecoder::from_array(&bytes)) {
@@ -41,6 +44,17 @@ fn run_case(case: &Value) -> Value {
                     };
                     json!({"enc": hex(&bytes), "dec": dec})
                 }
+                Err(p) => json!({"panic": p}),
+            }
+        }
+        "reencode" => {
+            let input = unhex(case["input"].as_str().unwrap());
+            match guarded(|| rdest::BDecoder::from_array(&input)) {
+                Ok(Ok(vals)) => match guarded(|| encode_all(&vals)) {
+                    Ok(bytes) => json!({"ok": true, "enc": hex(&bytes)}),
+                    Err(p) => json!({"panic": p}),
+                },
+                Ok(Err(e)) => json!({"ok": false, "err": format!("{:?}", e)}),
                 Err(p) => json!({"panic": p}),
             }
         }
